@@ -251,6 +251,19 @@ class OptInterp:
         return self.results
 
     def explore(self, bb, idx, env, discr_of):
+        # bodies with loops are not unrolled: beyond a bounded nesting of branch decisions the path is given up as unknown
+        self._nest = getattr(self, "_nest", 0) + 1
+        try:
+            if self._nest > 120:
+                self.results.append("?")
+                self.records.append({"reads": dict(self._reads), "calls": list(self._calls), "ret": "?", "ctl_src": set(self._ctl),
+                                     "probe": dict(self._probe), "ret_src": set(), "gave_up": True})
+                return
+            return self._explore(bb, idx, env, discr_of)
+        finally:
+            self._nest -= 1
+
+    def _explore(self, bb, idx, env, discr_of):
         body = self.body
         while True:
             self.steps += 1
